@@ -123,6 +123,16 @@ theorem TellInv.of_same {s s' : State} (h1 : s'.ms = s.ms) (h2 : s'.updates = s.
   · exact hb m (by rw [← h3]; exact hm)
   · rw [h3] at hm; simp at hm
 
+theorem TellInv.removeDown (id : Id) : Pres (TellInv E τ) (modS fun s => { s with ms := removeIfDown s.ms id }) :=
+  Pres.modS_of (fun s hs => by
+    obtain ⟨ha, hb, hcc⟩ := hs
+    refine ⟨?_, hb, hcc⟩
+    intro m hm
+    simp only at hm
+    rcases removeIfDown_spec s.ms id with h | ⟨x, _, hp⟩
+    · rw [h] at hm; exact ha m hm
+    · exact ha m (hp.mem_iff.1 (List.mem_cons_of_mem _ hm)))
+
 theorem TellInv.base : Base E (TellInv E τ) (okTold τ) where
   okDown0 := fun _ => Nat.zero_le _
   membersApply := fun u hu => ⟨fun c hc => by
@@ -189,14 +199,6 @@ theorem TellInv.base : Base E (TellInv E τ) (okTold τ) where
     simp [Probe.start] at hm'
     subst hm'
     exact hm)
-  removeDown := fun id => Pres.modS_of (fun s hs => by
-    obtain ⟨ha, hb, hcc⟩ := hs
-    refine ⟨?_, hb, hcc⟩
-    intro m hm
-    simp only at hm
-    rcases removeIfDown_spec s.ms id with h | ⟨x, _, hp⟩
-    · rw [h] at hm; exact ha m hm
-    · exact ha m (hp.mem_iff.1 (List.mem_cons_of_mem _ hm)))
   sendMessage := fun d m => ⟨fun c hc => by
     have h1 := sendMessage_upd E d m c
     have h2 := sendMessage_spec E d m c
@@ -261,7 +263,8 @@ theorem TellInv.step (s : State) (op : Op) (orc : Oracle) (h : TellInv E τ s) (
     (fun _ => F.toBase.reuseDownIdentity_of (TellInv.modId E τ))
     (fun m inc tok ht => hin.2.2 m inc tok ht)
     (fun us b hu => hin.1 us b hu)
-    (fun data hd => hin.2.1 data hd)).run ⟨s, [], orc⟩ h
+    (fun data hd => hin.2.1 data hd)
+    (fun id _ => TellInv.removeDown E τ id)).run ⟨s, [], orc⟩ h
   unfold Foca.step
   cases hr : Foca.runOp E op ⟨s, [], orc⟩ with
   | stuck x => trivial
